@@ -391,8 +391,16 @@ def check_ppt_fixture():
 
 
 # ---- RTF documents generated natively -------------------------------------------------------------
+RTF_ESC = {"П": "\\u1055?", "р": "\\u1088?", "и": "\\u1080?", "é": "\\'e9", "\\": "\\\\", "{": "\\{", "}": "\\}", "\u00a0": "\\~"}
+
+
+def rtf_escape(text):
+    """page text -> RTF source: non-ASCII letters as \\uN? runs, e-acute as a hex escape, specials escaped"""
+    return "".join(RTF_ESC.get(ch, ch) for ch in text)
+
+
 def rtf_doc(pages):
-    return ("{\\rtf1\\ansi " + "\\page ".join(pages) + "}").encode("ascii")
+    return ("{\\rtf1\\ansi " + "\\page ".join(rtf_escape(p) for p in pages) + "}").encode("ascii")
 
 
 def check_rtf(pages):
@@ -407,17 +415,19 @@ def check_rtf(pages):
         ok = obs == want
     if not ok:
         return {"target": "rtf_extractor.py::read_rtf", "inputs": {"page_texts": pages, "rtf": rtf_doc(pages).decode("ascii")},
-                "expected": f"one unit per explicit page, number = 1-based source position: {want!r}",
+                "expected": f"one unit per explicit page, number = 1-based source position, holding exactly that page's text: {want!r}",
                 "observed": f"pages={c.pages!r} units={obs!r}", "check": "rtf"}
     return None
 
 
 def sweep_rtf():
-    pool = ["A", "", " ", "B b"]
-    for pages in (["A", "", "B"], ["", "A"]):        # the telling cases first: an empty page shifts every later number
+    # the telling cases first: an empty page shifts every later number; escapes of several kinds (Unicode runs, hex,
+    # specials) in front of a page break must not move the break
+    for pages in (["A", "", "B"], ["", "A"], ["При", "B"], ["xПриy При", "é{z}", "C"], ["é\\", "B"], ["a\u00a0b", "c"]):
         r = check_rtf(pages)
         if r:
             return r
+    pool = ["A", "", " ", "B b", "При", "éé"]
     for n in range(1, 4):
         for pages in itertools.product(pool, repeat=n):
             r = check_rtf(list(pages))
